@@ -654,7 +654,8 @@ def walk_class(ctx, prop, base, safe, ix, j, sf, d, c, path):
         for tp in c["type_parameters"]:
             if tp["type"] is not None:
                 exp |= type_keys(tp["type"])
-        pub_supers = [s for s in c["superclasses"] if not s.split(".")[-1].startswith("_")]
+        # `object` is the implicit base of every class, not a second superclass
+        pub_supers = [s for s in c["superclasses"] if not s.split(".")[-1].startswith("_") and s != "builtins.object"]
         if len(pub_supers) > 1 and not abstract:
             exp.add("multiple_inheritance")
         g = got - {"internal class as type"}
